@@ -87,7 +87,7 @@ def main():
                 stats['_sections_config'] = vc
         out['json'] = json.loads(export_json(stats, verbose=1))
         hp = os.path.join(root, 'direct.html')
-        write_summary_file_vue(stats, hp, year=spec.get('year', 2025), currency_format='${amount}',
+        write_summary_file_vue(stats, hp, year=spec.get('year', 2025), currency_format=spec.get('currency_format') or '${amount}',
                                sources=[s['name'] for s in spec['sources'] if not s['supplemental']])
         m = re.search(r'<script>window\.spendingData = (.*?);</script>', open(hp, encoding='utf-8').read(), re.S)
         out['spending'] = json.loads(m.group(1)) if m else None
